@@ -29,6 +29,7 @@ RULE = (
     "its delivery log == items[0:cursor]; a closed handle yields nothing and does not advance the cursor. "
     "Non-trivial: the handle was closed at least once (directly, via iter, by a tool or by gc) and the underlying "
     "iterator was used afterwards; distinct = distinct (flavour, length, history) by 64-bit hash."
+    " Extensions of rounds 9-12: send / throw through ladder rungs that were closed themselves; a kept tee whose children all ended has closed the handle."
 )
 COMPONENTS = dict(COMPONENTS_BASE, models=["borrowed-handle model: cursor + handle state (open/closed)"])
 ASSUMPTIONS = [
